@@ -9,10 +9,14 @@
             Rt/PoolModel.v     the stack pool (pool.rs get / put) as an overlay on SchedModel
             Rt/ScopeModel.v    (C14, imported unchanged) re-raise in the owner of a scope
 
-   What is NOT in the models and is violated by the real code (found by the scenario, reported): std::thread::panicking()
-   is a per-OS-thread counter.  A coroutine that yields while it unwinds and is resumed by another worker leaves both
-   workers' counters wrong (observation O2; still so after fix 6bc550e, which only removed the use in scoped.rs).  The
-   models treat "unwinding" as a property of the task. *)
+   The models follow the code after fix bce9086 (finding F32: Flag::done asks whether the cancel panic was raised, not
+   whether a cancel request is pending); the code before it is the variant `fixd = false` of PoisonModel.
+
+   What is NOT in PoisonModel and is violated by the real code (known findings F33a/b/c): std::thread::panicking() is a
+   per-OS-thread counter.  A coroutine that is suspended inside its unwinding and resumed by another worker leaves both
+   workers' counters wrong, and while it is suspended its thread reports "panicking" to every other coroutine
+   (observation O2; fix 6bc550e only removed the use in scoped.rs).  PoisonModel treats "unwinding" as a property of the
+   task; Rt/PoisonTls.v is the TLS-faithful variant with the refutations. *)
 From Coq Require Import List Arith ZArith Bool.
 Import ListNotations.
 Require MayV.Rt.PoisonModel MayV.Rt.PoisonInv MayV.Rt.PoisonPres MayV.Rt.PoisonThm.
@@ -428,8 +432,8 @@ Print Assumptions C13_iii_scope_owner_reraises_the_childs_panic.
 
 (* std::thread::panicking() counts per OS thread.  A coroutine that is suspended INSIDE its unwinding (the runtime does
    that itself: RwLockReadGuard::drop waits for the reader-count mutex, Park::drop for the kernel half, Drop for Scope /
-   Cqueue for children) may be resumed by another thread, and meanwhile its thread runs other coroutines.  Potential
-   defects of `may`, each replayed on the real code (see props/C13.json, assumptions):
+   Cqueue for children) may be resumed by another thread, and meanwhile its thread runs other coroutines.  Known
+   findings F33a / F33b / F33c, each run on the real code by every check (props/C13.json, third scenario):
 
    a panic that started inside a Mutex guard does NOT poison when the coroutine was resumed by another thread while it
    unwinds; the counters of both threads stay wrong (1 and -1) *)
